@@ -335,3 +335,31 @@ fn compile_ordering_bytes__lexicographic() {
     kani::cover!(xlen == 1 && llen == 2 && xb[0] == lb[0]);
     std::mem::forget(scheme);
 }
+
+/// A bare field of type Array(Bool) / Map(Bool): compiled through `compile_vec_with` (one
+/// boolean per element, no default), each element being its own value.
+#[kani::proof]
+#[kani::unwind(4)]
+#[kani::stub(crate::ast::index_expr::IndexExpr::compile_with, crate::ast::field_expr::verif_kani::common::compile_with__contract)]
+#[kani::stub(crate::ast::index_expr::IndexExpr::compile_vec_with, crate::ast::field_expr::verif_kani::common::compile_vec_with__contract)]
+#[kani::stub(<crate::ast::index_expr::IndexExpr as crate::types::GetType>::get_type, crate::ast::field_expr::verif_kani::common::index_expr_get_type__contract)]
+fn compile_is_true__container_of_booleans_is_elementwise() {
+    let is_map: bool = kani::any();
+    let ty = if is_map { Type::Map(Type::Bool.into()) } else { Type::Array(Type::Bool.into()) };
+    let scheme = scheme_of(&[(ty, false)], true);
+    let a: bool = kani::any();
+    unsafe {
+        PROBE = Some(LhsValue::Bool(a));
+        LHS_TYPE = Some(ty);
+    }
+    let compiled = extracted::arm_is_true(field_lhs(&scheme, 0), &mut NoCompiler, kani::any());
+    assert!(matches!(&compiled, CompiledExpr::Vec(_)), "a container of booleans compiles to a boolean ARRAY expression");
+    std::mem::forget(compiled);
+    unsafe {
+        assert!(REC_VEC_CALLS == 1 && REC_CALLS == 0, "compiled element-wise (compile_vec_with), exactly once");
+        assert!(REC_RESULT == Some(a), "each element is its own truth value");
+    }
+    kani::cover!(is_map);
+    kani::cover!(!is_map);
+    std::mem::forget(scheme);
+}
